@@ -29,7 +29,8 @@ LEVEL_TEXT = ("handle_message(initialize) is executed for each supported version
               ' Also other server objects in the process built through every constructor argument that mentions versions (found by signature), their versions among the requested ones.'
               ' Also, after every third successful handshake, the session record dropped (deletion, expiry sweep) and the id used again: whatever is kept under it must carry the answered version.'
               ' Also the same requests against a fully configured ProtocolHandler (title, every capability family) and a fully configured MCPServer.'
-              " Also a server whose session store is the application's own subclass of the exported interface.")
+              " Also a server whose session store is the application's own subclass of the exported interface."
+              ' Also clients that offer an empty list in the end-to-end pairing.')
 LEVEL_NOTE = ("Trusted: SUPPORTED_VERSIONS read from the library at run time defines 'supports'; the in-memory pump "
               "(write -> dump -> parse_message -> handler -> dump -> parse_message -> read).")
 RULE = ("case = requested protocolVersion value (direct) or (client supported list, preferred) (end-to-end). Non-trivial: "
